@@ -86,4 +86,12 @@ CHECKS = {
         note="Trusted: Lean kernel; extractor (syn); 'all operations are relative to the output directory' is by construction of the model and validated by snapshots.",
         technique="Lean 4 theorems over extracted tables (decide + lemma lifting to all names) + sandbox snapshot differential runs",
     ),
+    "C19": dict(
+        text="Proof, for every JSON object document and every settings value, that saving preserves the value of every other top-level key and of every other plugin entry, "
+             "that the written block reads back as the written settings, and of the precedence flag > file > default with rejection of an invalid effective configuration before any write; "
+             "tied to the code by the real save/load functions on random documents and by the CLI over all flag subsets x file blocks, each compared with the model.",
+        design_ref="DESIGN.md section 7.C19",
+        note="Trusted: Lean kernel; serde_json value semantics; JSON objects as association lists with unique keys; effective settings observed externally.",
+        technique="Lean 4 theorems on an association-list JSON model + differential correspondence (in-process and CLI)",
+    ),
 }
